@@ -114,6 +114,10 @@ func checkC04(c *hx.Checker) {
 		{{257, 3}, {3, 259}}, {{4099}, {4099}}, {{1, 4099}, {4099, 3}}, {{7, 67, 5}, {5, 71}}, {{131, 129}, {129, 131}}} {
 		mm(ref.F32, sp[0], sp[1], "op", nil)
 	}
+	// stacks so large that stretching the other operand over them would copy more than 2^20 elements
+	for _, sp := range [][2][]int{{{4096, 2, 300}, {300}}, {{4096, 2, 300}, {300, 2}}, {{300}, {2100, 300, 2}}, {{3, 300}, {1200, 300, 3}}} {
+		mm(ref.F32, sp[0], sp[1], "op", nil)
+	}
 	// every row / column / inner count 1..72 against a 64-wide partner: size thresholds of blocked or parallel kernels
 	// combined with every remainder when rows are divided into blocks
 	for v := 1; v <= 72; v++ {
@@ -171,6 +175,9 @@ func checkC04(c *hx.Checker) {
 			alphaBeta = append(alphaBeta, [2]float32{a, b})
 		}
 	}
+	// scale factors that are no dyadic fractions: the float32 attribute 0.1 is 0.100000001490116..., and that - not the
+	// decimal 0.1 - scales a float64 product
+	alphaBeta = append(alphaBeta, [2]float32{0.1, 0.3}, [2]float32{-0.7, 1}, [2]float32{1, 0.1})
 	var discTrans, discAB, gemmCases int
 	for _, dt := range []ref.DT{ref.F32, ref.F64} {
 		for _, tA := range []bool{false, true} {
